@@ -405,7 +405,10 @@ def extern_defs(w):
     for path, it in sorted(w.items.items()):
         if it[3] == 'extern' and path.startswith('m::'):
             size, align = it[4][1], it[4][2]
-            out.append('#[repr(C, align(%d))] pub struct %s { _b: [u8; %d] }' % (max(align, 1), path[3:], size))
+            # natural alignment through the element type (a repr(align) struct could not be placed inside a packed type)
+            elem = {1: 'u8', 2: 'u16', 4: 'u32', 8: 'u64', 16: 'u128'}.get(align)
+            if elem: out.append('#[repr(C)] pub struct %s { _b: [%s; %d] }' % (path[3:], elem, size // align))
+            else: out.append('#[repr(C, align(%d))] pub struct %s { _b: [u8; %d] }' % (max(align, 1), path[3:], size))
     return '\n'.join(out)
 
 
